@@ -66,6 +66,22 @@ func rulePBalanced(p *Program, r *Reporter) {
 				if _, isAlloc := fa.X.(*ssa.Alloc); isAlloc {
 					continue
 				}
+				// only counters: the same function (or a function it defers) also steps the field back somewhere
+				paired := false
+				for _, fb := range append([]*ssa.Function{fn}, fn.AnonFuncs...) {
+					for _, bb := range fb.Blocks {
+						for _, in2 := range bb.Instrs {
+							if s2, ok := in2.(*ssa.Store); ok {
+								if fa2, step2, ok := fieldStep(s2); ok && step2 == -step && fa2.Field == fa.Field {
+									paired = true
+								}
+							}
+						}
+					}
+				}
+				if !paired {
+					continue
+				}
 				n++
 				key := fmt.Sprintf("%s counter %s#%d", name, fieldName(fa), n)
 				undoes := func(x ssa.Instruction) bool {
